@@ -37,7 +37,8 @@ def frame(kind, i, op_id):
     if kind == "error_nopayload":
         return json.dumps({"type": "error", "id": op_id} if i % 2 else {"type": "error", "id": op_id, "payload": {}})
     if kind == "nonjson":
-        return "this is {not json"
+        # non-JSON text comes in several shapes; a blank / whitespace-only frame is one of them (WsProtocol: "nonjson")
+        return ("this is {not json", "", "  \n")[i % 3]
     if kind == "unknown":
         return json.dumps({"type": "bogus_type", "id": op_id})
     if kind == "notype":
